@@ -171,7 +171,41 @@ func c07Drive(t *testing.T, run func(mode, kind, src string), stats *verifh.Stat
 			run(m, "replay", string(rp))
 		}
 
+		for level := 1; level <= 3; level++ {
+			for _, m := range modes {
+				run(c07At(m, level), "replay", string(rp))
+			}
+		}
+
 		return
+	}
+
+	// constant expressions at every optimizer level (own PRNG streams: the cases below are the same as before)
+	for i, src := range c07ConstNasty {
+		for level := 0; level <= 3; level++ {
+			run(c07At("admin", level), "constnasty", src)
+		}
+
+		run("test@2", "constnasty", src)
+		run(c07At([]string{"test", "console"}[i%2], []int{0, 1, 3}[i%3]), "constnasty", src)
+	}
+
+	rk := verifh.Rand(79)
+
+	for i, n := 0, verifh.N(300, 20000); i < n; i++ {
+		run(c07At(modes[rk.Intn(len(modes))], i%4), "constgen", c07GenConst(rk))
+	}
+
+	// the fixed corpus once more with the optimizer on
+	for i, src := range c07Nasty {
+		run(c07At(modes[i%2], []int{2, 2, 1, 3}[i%4]), "nasty", src)
+	}
+
+	rl := verifh.Rand(78) // optimizer level of the second run of a generated case
+	again := func(mode, kind, src string) {
+		if mode != "tok" && mode != "debug" && rl.Intn(3) == 0 {
+			run(c07At(mode, 1+rl.Intn(3)), kind, src)
+		}
 	}
 
 	for _, src := range c07Nasty {
@@ -227,6 +261,7 @@ func c07Drive(t *testing.T, run func(mode, kind, src string), stats *verifh.Stat
 			}
 
 			run(mode, "tokmut", src)
+			again(mode, "tokmut", src)
 		case k < 7: // generated program, possibly token-mutated
 			src := c07GenProgram(r)
 			kind := "gen"
@@ -237,6 +272,7 @@ func c07Drive(t *testing.T, run func(mode, kind, src string), stats *verifh.Stat
 			}
 
 			run(mode, kind, src)
+			again(mode, kind, src)
 		case k < 8: // byte noise on a tests/ program or nasty text
 			src := c07Nasty[r.Intn(len(c07Nasty))]
 			if r.Intn(2) == 0 {
@@ -257,7 +293,9 @@ func c07Drive(t *testing.T, run func(mode, kind, src string), stats *verifh.Stat
 				parts = append(parts, c07Nasty[r.Intn(len(c07Nasty))])
 			}
 
-			run(mode, "glue", strings.Join(parts, []string{"\n", "; ", " ", "\n}\n"}[r.Intn(4)]))
+			glued := strings.Join(parts, []string{"\n", "; ", " ", "\n}\n"}[r.Intn(4)])
+			run(mode, "glue", glued)
+			again(mode, "glue", glued)
 		default: // deep nesting, or a debugger command script
 			if r.Intn(2) == 0 {
 				var cmds []string
